@@ -362,6 +362,8 @@ def run(ctx):
     exes = {"asan": ctx.cc("harness/c12.c", "asan"), "w32": ctx.cc("harness/c12.c", "w32")}
     std, bels = C12_val.load_std(lambda lines: ctx.run_lines(exes["asan"], lines)[0])
     ops = generate(ctx, std, bels)
+    gen_ops = [o for o in ops if o.klass.startswith("gen:")]
+    ops = [o for o in ops if not o.klass.startswith("gen:")]
     o64, o32 = route(ops)
     have_drv = os.path.exists(ctx.driver())
     results = []   # (op, impl, model)
@@ -379,6 +381,19 @@ def run(ctx):
             l_out = [None] * len(c_out)
         for i, o in enumerate(lst[:len(c_out)]):
             results.append((o, c_out[i], l_out[i] if i < len(l_out) else None))
+    # implementation-only ops: generation from a seed; the generated set must validate (fed back to the validator)
+    if gen_ops:
+        g_out = ctx.run_lines(exes["asan"], [o.line for o in gen_ops])[0]
+        back = []
+        for o, c in zip(gen_ops, g_out):
+            results.append((o, c, None))
+            w = c.split()
+            if w and w[0] == "0" and len(w) == 7:
+                back.append(Op("stb99val " + " ".join(w[1:7]), "0", "gen:validate-generated"))
+        if back:
+            b_out = ctx.run_lines(exes["asan"], [o.line for o in back])[0]
+            results += [(o, c, None) for o, c in zip(back, b_out)]
+        ctx.cov["generated_parameter_sets"] = len(back)
     ctx.cov["t_diff_done_s"] = round(time.time() - ctx.t0, 1)
     # ---- search oracle: implementation vs independent recomputation
     bad_oracle, bad_model = collections.OrderedDict(), collections.OrderedDict()
